@@ -390,6 +390,7 @@ pub fn ntv2_cases(g: &mut Gen, n: usize, be_one_in: usize) {
         }
         let margin = *g.rng.pick(&[0.0, 0.5]);
         g.push(format!("GRID\tntv2\t{}\t{}\t{}", hex(&bytes), fbits(margin), pts(&q)), if be { "ntv2-be" } else { "ntv2-le" }, true);
+        g.push(format!("S_C18G\tntv2\t{}\t{}\t{}", hex(&bytes), fbits(margin), pts(&q)), "oracle-grid-is-a-function", true);
         // the oracle gets the tree: name, parent, geometry, values
         let mut o = vec!["S_C08N".to_string(), hex(&bytes), fbits(margin), subs.len().to_string()];
         for s in &subs {
@@ -498,7 +499,14 @@ fn c08_ops(g: &mut Gen, thorough: bool) {
         // the same definition over the shipped files, on the model
         if !def.contains("100800401") {
             let u = std::f64::consts::PI / 180.0;
-            let geo: Vec<[f64; 4]> = (0..8).map(|_| [g.rng.uniform(7.0, 17.0) * u, g.rng.uniform(53.0, 59.0) * u, g.rng.uniform(0.0, 100.0), 2000.0 + g.rng.below(30) as f64]).collect();
+            let mut geo: Vec<[f64; 4]> = (0..8).map(|_| [g.rng.uniform(7.0, 17.0) * u, g.rng.uniform(53.0, 59.0) * u, g.rng.uniform(0.0, 100.0), 2000.0 + g.rng.below(30) as f64]).collect();
+            // positions that are not numbers are in no grid
+            geo.push([f64::NAN, 56.0 * u, 10.0, 2000.0]);
+            geo.push([12.0 * u, f64::NAN, 10.0, 2000.0]);
+            // on, just inside and just outside the northern and eastern borders (54-58 N, 8-16 E), and a corner
+            for (lat, lon) in [(58.0, 12.0), (57.999995, 12.0), (58.000005, 12.0), (56.0, 16.0), (56.0, 15.999995), (56.0, 16.000005), (58.0, 16.0), (54.0, 8.0), (54.000004, 8.000004)] {
+                geo.push([lon * u, lat * u, 10.0, 2000.0]);
+            }
             let data: Vec<[f64; 4]> = if def.starts_with("deformation") {
                 geo.iter().map(|p| { let (s, c) = p[1].sin_cos(); let (sl, cl) = p[0].sin_cos(); [6.38e6 * c * cl, 6.38e6 * c * sl, 6.36e6 * s, p[3]] }).collect()
             } else if def.starts_with("deflection") {
